@@ -24,7 +24,9 @@ def string_is_datetime(array: np.ndarray, state: dict) -> bool:
 
     if coerced_array is None:
         return False
-    elif np.isnat(coerced_array).any():
+    elif pd.isna(coerced_array).any():
+        # np.isnat only accepts datetime64 arrays; time zone aware results are
+        # object arrays of Timestamps
         return False
 
     return True
